@@ -197,7 +197,7 @@ struct Engine
         for (int s = 0; s < NS; ++s)
             if (mod[s].alive) { ++live; area += (long)(mod[s].w * mod[s].h); check_image("slot", s, *img[s], mod[s], owned); }
         for (int s = 0; s < NP; ++s)
-            if (pmod[s].alive) { ++live; check_image("pslot", s, *pimg[s], pmod[s], owned); }
+            if (pmod[s].alive) { ++live; area += (long)(pmod[s].w * pmod[s].h); check_image("pslot", s, *pimg[s], pmod[s], owned); }
         // per arena: every live block belongs to an image whose *current* allocator is that arena (this also sees an
         // empty image that holds an alignment-slack block of a foreign arena, which has no pixel address to look up)
         {
@@ -212,9 +212,10 @@ struct Engine
         int lb = W.live_blocks();
         if (lb > live)
             viol("ledger:leak", std::to_string(lb) + " live blocks but only " + std::to_string(live) + " live images");
-        if (K::is_tracked && (long)L.live.size() != area)
-            viol((long)L.live.size() > area ? "lifetime:leak" : "lifetime:missing",
-                 std::to_string(L.live.size()) + " live elements, images hold " + std::to_string(area));
+        long objs = area * K::objects_per_pixel;
+        if (K::is_tracked && (long)L.live.size() != objs)
+            viol((long)L.live.size() > objs ? "lifetime:leak" : "lifetime:missing",
+                 std::to_string(L.live.size()) + " live elements, images hold " + std::to_string(objs));
         W.check_all_canaries();
     }
 
